@@ -240,6 +240,9 @@ func x02Text(g *Gen, emptyOdds int) string {
 	if g.R.Intn(3) == 0 {
 		return x02Texts[g.R.Intn(len(x02Texts))]
 	}
+	if g.R.Intn(40) == 0 {
+		return strings.Repeat("w", g.R.Range(50, 140))
+	}
 	return string(g.R.Bytes(g.R.Range(1, 5), alphabets[g.R.Intn(len(alphabets))]))
 }
 
@@ -405,6 +408,14 @@ func genX02(g *Gen) {
 			star.labels = append(star.labels, L(Str(Int(i))))
 		}
 		x02Emit(g, star)
+	}
+	// long ids / labels: the indent of a sub-tree is the width of "-label->#id", here 63..260 columns
+	for _, w := range []int{55, 56, 57, 63, 64, 65, 127, 128, 129, 250} {
+		long := &x02G{id: strings.Repeat("i", w), info: "n"}
+		mid := &x02G{id: "m", info: strings.Repeat(".", w%7)}
+		long.kids, long.labels = []*x02G{mid, {id: "z", leaf: L("1", Int(w))}}, []string{L(Str(strings.Repeat("L", w))), L(Str("b"))}
+		mid.kids, mid.labels = []*x02G{{id: "leaf", leaf: "[0]"}}, []string{L(Str("c"))}
+		x02Emit(g, long)
 	}
 	comb := &x02G{id: "c"}
 	cur = comb
